@@ -35,9 +35,29 @@ def mkWorld (j : Json) : World String :=
     match arr! r with
     | [f, y] => (str! f, str! y)
     | _ => ("", "")
+  -- property getters: "tuple" returns the tuple of the dependency values; "guard" the same but raises when the
+  -- first one is falsy; "ge10" returns the first one and declares the return type Ge10 (conversion table)
+  let kinds : List (String × String) := (arr! (fld j "propkinds")).map fun r =>
+    match arr! r with
+    | [p, k] => (str! p, str! k)
+    | _ => ("", "")
+  let falsy : List String := ["null", "{\"i\":\"0\"}", "{\"s\":\"\"}", "{\"b\":false}"]
+  let ct : List ((String × String) × Option String) := (arr! (fld j "ctable")).map fun r =>
+    match arr! r with
+    | [p, x, y] => ((str! p, str! x), optStr y)
+    | _ => (("", ""), none)
+  let tup := fun (xs : List String) => "{\"t\":[" ++ ",".intercalate xs ++ "]}"
   { parse := fun f x => match pt.lookup (f, x) with | some r => r | none => some "\"PRIM-MISS\""
     parseAdd := fun x => match atb.lookup x with | some r => r | none => some "\"PRIM-MISS\""
-    getter := fun _ xs => some ("{\"t\":[" ++ ",".intercalate xs ++ "]}")
+    getter := fun p xs => match kinds.lookup p with
+      | some "guard" => (match xs with
+        | x :: _ => if falsy.contains x then none else some (tup xs)
+        | [] => some (tup xs))
+      | some "ge10" => xs.head?
+      | _ => some (tup xs)
+    convert := fun p raw => match kinds.lookup p with
+      | some "ge10" => (match ct.lookup (p, raw) with | some r => r | none => some "\"PRIM-MISS\"")
+      | _ => some raw
     deferred := fun f => df.lookup f }
 
 def mkMap (j : Json) : Map String := (arr! j).map fun r =>
@@ -100,7 +120,9 @@ def handle (j : Json) : Json :=
       | .copy _ :: rest => Json.mkObj (outRes (.err .attr) ++ [("heap", Json.arr #[outState true C W s])]) :: go s rest
     Json.mkObj [("init", Json.arr #[outState true C W s00]), ("steps", Json.arr (go s00 ops).toArray)]
   else
-    let s0 := postInit C W s00
+    match postInit C W s00 with
+    | none => Json.mkObj [("init-raised", Json.bool true)]
+    | some s0 =>
     let tr := htrace lg C W [s0] ops
     Json.mkObj [("init", Json.arr #[outState false C W s0]),
       ("steps", Json.arr (tr.map fun (h, r) =>
